@@ -28,6 +28,12 @@ def filterF (F : List String) (ds : List Delivery) : List Delivery := ds.filter 
 theorem filterF_cons (F : List String) (d : Delivery) (ds : List Delivery) :
     filterF F (d :: ds) = if keepMsg F d.2 then d :: filterF F ds else filterF F ds := by
   simp [filterF, List.filter_cons]
+@[simp] theorem filterF_abandoned (F : List String) (s : Session) (p : Part) : filterF F (s.abandoned p) = s.abandoned p := by
+  unfold Session.abandoned
+  split
+  · simp [filterF, keepMsg, Out.flagClass]
+  · rfl
+
 @[simp] theorem filterF_empty (ds : List Delivery) : filterF [] ds = ds := by
   unfold filterF
   rw [List.filter_eq_self]
